@@ -783,10 +783,31 @@ def r4_render_cache(run):
         for n in sers:
             tg = _writes(n.ast, '_media_rendered')
             where = '%s:%s' % (f.file, n.lineno)
-            if not run.check(len(tg) == 1 and _recv(tg[0]) is not None, '%s: the serialized media is stored in the rendered-media cache' % tag, f, n.ast,
-                             where=where, runtime_witness='every render_body() serializes again (and may differ)'):
-                continue
-            r = _recv(tg[0])
+            via_local = None     # the rendition is first held in a local that only renditions are assigned to, then stored once
+            if not tg and isinstance(n.ast, (ast.Assign, ast.AnnAssign)) and n.ast.value is not None:
+                lt = n.ast.targets if isinstance(n.ast, ast.Assign) else [n.ast.target]
+                if len(lt) == 1 and isinstance(lt[0], ast.Name) and lt[0].id not in f.params():
+                    L = lt[0].id
+                    binds = _assignments(f.node, L)
+                    ser_stmts = {id(x.ast) for x in sers}
+                    only_renditions = bool(binds) and all(id(st) in ser_stmts for st, _v in binds)
+                    stores = [x for x in cfg.live_nodes() if x.kind == 'stmt' and isinstance(x.ast, ast.Assign) and _writes(x.ast, '_media_rendered')
+                              and isinstance(x.ast.value, ast.Name) and x.ast.value.id == L]
+                    recvs = {_recv(t) for x in stores for t in _writes(x.ast, '_media_rendered')}
+                    if only_renditions and stores and len(recvs) == 1 and None not in recvs:
+                        succs0 = [y for (y, l) in cfg.succ[n.id] if l != 'exc']
+                        skip = flow.find_path(cfg, succs0, [cfg.exit], avoid_nodes=[x.id for x in stores], edge_filter=flow.no_exc)
+                        if skip is None:
+                            via_local = (L, next(iter(recvs)), stores)
+            if via_local is None:
+                if not run.check(len(tg) == 1 and _recv(tg[0]) is not None, '%s: the serialized media is stored in the rendered-media cache' % tag, f, n.ast,
+                                 where=where, runtime_witness='every render_body() serializes again (and may differ)'):
+                    continue
+                r = _recv(tg[0])
+            else:
+                run.ok('%s: the serialized media is stored in the rendered-media cache (through the local %s, on every normal path '
+                       'from the serialization)' % (tag, via_local[0]), where, n.ast)
+                r = via_local[1]
 
             def cached(test, truth, r=r):
                 for a in [x for x in walk_self(test) if isinstance(x, ast.Compare) and len(x.ops) == 1 and isinstance(x.ops[0], (ast.Is, ast.IsNot))
@@ -811,6 +832,12 @@ def r4_render_cache(run):
             # and the answer is read back from the cache
             readers = [x.id for x in cfg.live_nodes() if x.id != n.id and x.kind == 'stmt' and isinstance(x.ast, (ast.Assign, ast.AnnAssign, ast.Return))
                        and _is_attr_of(getattr(x.ast, 'value', None), r, '_media_rendered')]
+            if via_local is not None:
+                # the local holds what was just stored in the cache: answering from it is answering from the cache
+                store_ids = {x.id for x in via_local[2]}
+                readers += [x.id for x in cfg.live_nodes() if x.id != n.id and x.id not in store_ids and x.kind == 'stmt'
+                            and isinstance(x.ast, (ast.Assign, ast.AnnAssign, ast.Return))
+                            and isinstance(getattr(x.ast, 'value', None), ast.Name) and x.ast.value.id == via_local[0]]
             succs = [y for (y, l) in cfg.succ[n.id] if l != 'exc']
             path = flow.find_path(cfg, succs, [cfg.exit], avoid_nodes=readers, edge_filter=flow.no_exc)
             run.check(path is None, '%s: the body is taken from the rendered-media cache' % tag, f, n.ast, where=where,
